@@ -151,22 +151,32 @@ class StructParam(Parameter):
         """register callbacks for consistency"""
         super().finish(modobj)
         if modobj:
+            # keep struct and members consistent in both directions, whatever is updated
+            # (insideRW avoids the superfluous updates back and forth)
 
-            if self.hasStructRW:
-                def cb(value, modobj=modobj, structparam=self):
-                    for membername, param in structparam.paramdict.items():
-                        setattr(modobj, param.name, value[membername])
+            def struct_cb(value, modobj=modobj, structparam=self):
+                if not structparam.insideRW:
+                    structparam.insideRW += 1
+                    try:
+                        for membername, param in structparam.paramdict.items():
+                            setattr(modobj, param.name, value[membername])
+                    finally:
+                        structparam.insideRW -= 1
 
-                modobj.addCallback(self.name, cb)
-            else:
-                for membername, param in self.paramdict.items():
-                    def cb(value, modobj=modobj, structparam=self, membername=membername):
-                        if not structparam.insideRW:
+            modobj.addCallback(self.name, struct_cb)
+
+            for membername, param in self.paramdict.items():
+                def cb(value, modobj=modobj, structparam=self, membername=membername):
+                    if not structparam.insideRW:
+                        structparam.insideRW += 1
+                        try:
                             prev = dict(getattr(modobj, structparam.name))
                             prev[membername] = value
                             setattr(modobj, structparam.name, prev)
+                        finally:
+                            structparam.insideRW -= 1
 
-                    modobj.addCallback(param.name, cb)
+                modobj.addCallback(param.name, cb)
 
 
 class FloatEnumParam(Parameter):
